@@ -70,6 +70,11 @@ def run(repo: Repo, chk: Check, thorough: bool = False) -> None:
         ps = [p.arg for p in rp.params()]
         ok = isinstance(t0, ast.Subscript) and ps[1] in norm(t0.value) and norm(t0.slice) == ps[2] and norm(ins_new[0].value) == 'self'
         chk.ob('R07.1', f'{DOC}.reparent :: entry inserted in the new parent under the new name', ok, norm(ins_new[0]), repo.loc(rp.mod, ins_new[0]))
+        chk.ob('R07.1', f'{DOC}.reparent :: old entry removed before the new one is inserted', before(del_old[0], ins_new[0]),
+               'del old_parent.contents[old_name] precedes new_parent.contents[new_name] = self' if before(del_old[0], ins_new[0]) else
+               'the new entry is inserted before the old one is deleted: when an object is re-exported under its own name by its own parent '
+               '(old parent is new parent, same name) the delete removes the entry that was just inserted and the object vanishes from its module',
+               repo.loc(rp.mod, ins_new[0]))
         a0 = alias[0]
         at = a0.targets[0]
         ok = isinstance(at, ast.Subscript) and norm(old_parent[0].targets[0]) in norm(at.value) and norm(at.slice) == norm(old_name[0].targets[0]) and \
@@ -80,7 +85,7 @@ def run(repo: Repo, chk: Check, thorough: bool = False) -> None:
                'references through the defining module stop resolving', repo.loc(rp.mod, a0))
         ok = bool(set_pmod) and ps[1] in norm(set_pmod[0].value)
         chk.ob('R07.1', f'{DOC}.reparent :: parentMod follows the move', ok, norm(set_pmod[0]) if set_pmod else 'parentMod not updated', rp.loc)
-        chk.require('R07.1', 7)
+        chk.require('R07.1', 8)
 
     # ------------------------------------------------------------------ R07.2
     hr = repo.func(f'{MV}._handleReExport')
